@@ -222,7 +222,7 @@ def merge_states(states):
     blocks = set()
     for s in states:
         blocks.update(s.mem)
-    for b in blocks:
+    for b in sorted(blocks, key=lambda b_: b_.id):
         vals = [s.mem.get(b) for s in states]
         if any(v is None for v in vals):
             # allocated in some branches only: contents are irrelevant where it does not exist
@@ -1363,6 +1363,10 @@ class CExec:
         # havoc
         mv, mb = self.modset(st, {"kind": "CompoundStmt", "inner": [body] + ([inc] if inc and inc.get("kind") else [])})
         h = st.clone()
+        # deterministic order (clang's node ids and object addresses differ from run to run): fresh names, and with them
+        # the text handed to the solver, must not depend on set iteration order
+        mv = sorted(mv, key=lambda d: (h.names.get(d, ""), list(h.vars).index(d) if d in h.vars else -1))
+        mb = sorted(mb, key=lambda b_: b_.id)
         for did in mv:
             if did in h.vars and not isinstance(h.vars[did], (Ptr, FnRef, SizeOf)) and h.vars[did] is not None:
                 old = Z(h.vars[did])
